@@ -147,13 +147,67 @@ def point_cloud(r, n, style, f32=False):
                 pts.append((float(dx * t), float(dy * t)))
             else:
                 pts.append((float(r.range(-8, 8)), float(r.range(-8, 8))))
+    elif style == 'bigcol':
+        # large integer coordinates with nearly collinear triples: exact determinants of +-1..few while the
+        # floating-point evaluation of the same determinant rounds to 0 or to the wrong sign
+        sh = r.choice([20, 24]) if f32 else r.choice([27, 30, 31, 40])
+        dx, dy = r.range(1, 1 << 10) | 1, r.range(1, 1 << 10) | 1
+        bx, by = r.range(-(1 << sh), 1 << sh), r.range(-(1 << sh), 1 << sh)
+        scale = 1 << max(0, sh - 12)
+        for _ in range(n):
+            t = r.range(-8, 8) * scale + r.range(-3, 3)
+            x, y = bx + t * dx, by + t * dy
+            k = r.below(5)
+            if k == 0:
+                x += r.choice([-1, 1])
+            elif k == 1:
+                y += r.choice([-1, 1])
+            elif k == 2:
+                x, y = x + r.range(-(1 << sh), 1 << sh) // 4, y + r.range(-(1 << sh), 1 << sh) // 4
+            pts.append((float(x), float(y)))
+    elif style == 'unimod':
+        # chains of long lattice vectors with cross product exactly +-1 (columns of a random unimodular matrix):
+        # consecutive points are collinear up to the smallest possible exact determinant while every coordinate
+        # product exceeds the mantissa -- inexact orientation / in-circle evaluations get these wrong
+        lim = (1 << 10) if f32 else (1 << r.choice([20, 28, 30]))
+        a, b, c_, d_ = 1, 0, 0, 1
+        while max(abs(a), abs(b), abs(c_), abs(d_)) < lim // 8:
+            k = r.range(1, 6)
+            if r.chance(0.5):
+                a, b = a + k * c_, b + k * d_
+            else:
+                c_, d_ = c_ + k * a, d_ + k * b
+        v1, v2 = (a, c_), (b, d_)           # cross(v1, v2) = a*d_ - b*c_ = 1
+        if r.chance(0.5):
+            v1, v2 = v2, v1                  # cross = -1
+        ox, oy = r.range(-lim // 4, lim // 4), r.range(-lim // 4, lim // 4)
+        A = (ox - v1[0], oy - v1[1]); B = (ox, oy); C = (ox + v2[0], oy + v2[1])
+        chain = [A, B, C, (C[0] + v1[0], C[1] + v1[1])]
+        pts = [(float(x), float(y)) for x, y in chain[:max(3, min(n, 4))]]
+        # the rest: points on either side, far and near
+        nx, ny = -(v1[1] + v2[1]), (v1[0] + v2[0])      # a normal direction
+        while len(pts) < n:
+            k = r.below(4)
+            if k == 0:
+                t = r.choice([-1, 1]) * r.range(1, 4)
+                pts.append((float(ox + t * nx // 2), float(oy + t * ny // 2)))
+            elif k == 1:
+                pts.append((float(ox + r.range(-lim // 8, lim // 8)), float(oy + r.range(-lim // 8, lim // 8))))
+            elif k == 2:
+                t = r.choice([-1, 1])
+                pts.append((float(ox + t * nx + r.range(-3, 3)), float(oy + t * ny + r.range(-3, 3))))
+            else:
+                p0 = r.choice(chain)
+                pts.append((float(p0[0] + r.range(-1, 1)), float(p0[1] + r.range(-1, 1))))
+        if r.chance(0.5):
+            r.shuffle(pts)
     else:
         raise ValueError(style)
     if f32:
         pts = [(struct.unpack('<f', struct.pack('<f', x))[0], struct.unpack('<f', struct.pack('<f', y))[0]) for x, y in pts]
     return pts
 
-STYLES = [('grid', 40), ('circle', 20), ('line', 8), ('ulp', 14), ('mag', 8), ('cluster', 5), ('ray', 5)]
+STYLES = [('grid', 36), ('circle', 18), ('line', 8), ('ulp', 12), ('mag', 8), ('cluster', 5), ('ray', 5), ('bigcol', 6), ('unimod', 10)]
 
 def pick_cfg(r, kinds=("dt", "cdt"), f32_share=0.2):
     kind = r.choice(list(kinds))
@@ -198,7 +252,7 @@ def invalid_value(r):
 # ------------------------------------------------------------------ generic histories
 def history(r, cid, kinds=("dt", "cdt"), max_ops=14, max_pts=12, f32_share=0.2, styles=None,
             w_ins=60, w_rm=14, w_lrm=5, w_insh=8, w_trm=3, w_clear=1, w_clone=1, w_dupe=10, w_invalid=0,
-            w_addc=0, w_rmc=0, w_split=0, w_tryc=0, w_adde=0, force_kind=None):
+            w_addc=0, w_rmc=0, w_split=0, w_tryc=0, w_adde=0, force_kind=None, p_bulk=0.3):
     kind, scalar, hint = pick_cfg(r, kinds, f32_share)
     if force_kind:
         kind = force_kind
@@ -210,6 +264,24 @@ def history(r, cid, kinds=("dt", "cdt"), max_ops=14, max_pts=12, f32_share=0.2, 
     c.meta = {"style": style, "kind": kind, "scalar": scalar, "hint": hint}
     inserted = []
     d = 1
+    if r.chance(p_bulk):
+        # start from a bulk load (all four loaders)
+        k = r.range(1, max_pts)
+        sub = [r.choice(pool) for _ in range(k)] if r.chance(0.5) else pool[:k]
+        toks = []
+        for (x, y) in sub:
+            toks += [bits(x), bits(y), d]
+            d += 1
+        stable = r.chance(0.5)
+        if kind == "cdt" and r.chance(0.6):
+            m = r.range(0, 4)
+            es = []
+            for _ in range(m):
+                es += [r.below(k), r.below(k)]
+            c.add("bulkcs" if stable else "bulkc", k, *toks, m, *es)
+        else:
+            c.add("bulks" if stable else "bulk", k, *toks)
+        inserted += sub
     for _ in range(n_ops):
         ws = [("ins", w_ins), ("rm", w_rm), ("lrm", w_lrm), ("insh", w_insh), ("trm", w_trm), ("clear", w_clear),
               ("clone", w_clone), ("dupe", w_dupe), ("invalid", w_invalid)]
